@@ -9,7 +9,8 @@
                                    4 "integer overflow" error, 5 anything else, 6 the call
                                    never returned (blocked on the generator's mutex for good);
                                    asked = number of Storage.Incr calls during the event (0, 1; more is a failure)
-   raws     = raw counter values fed to a store adapter's guard, gouts = ((ok value) ...)
+   raws     = guard scripts ((adapter init c1 c2 ...) ...): raw counter values fed to a real store
+              adapter's Incr through a fake of its client, gouts = (((ok value) ...) ...)
    A second case shape carries concurrent scenarios, see check_concurrent. *)
 From Coq Require Import ZArith List Bool.
 From FV Require Import Generated.Consts Lib.Sx C08.Model.
@@ -235,10 +236,43 @@ Fixpoint increasing_from (last : option Z) (l : list (option Z)) : bool :=
   | Some v :: r => match last with Some p => p <? v | None => true end && increasing_from (Some v) r
   end.
 
-Definition guard_checks (raws : list Z) (gouts : list (option Z)) : verdict :=
-  vjoin (check_that (if forallb (fun r => negb (r =? 0)) raws then increasing_from None gouts else true)
+(* a raw value -2^62 in a script says "the client call fails here": the adapter passes the
+   error on (no value) and keeps its lastId, so the following counters are judged as before *)
+Definition err_raw : Z := - 4611686018427387904.
+Fixpoint guard_run_e (last : Z) (raws : list Z) : list (option Z) :=
+  match raws with
+  | [] => []
+  | r :: rest =>
+      if r =? err_raw then None :: guard_run_e last rest
+      else let '(o, last') := guard last r in o :: guard_run_e last' rest
+  end.
+
+(* one guard script: the adapter (0 redis, 1 etcd, 2 mysql, 3 mongo: all four share the model's
+   guard), the counter the adapter starts from (what a MySQLStore found in its table; 0
+   otherwise), the raw counters, and what the real Incr returned for each *)
+Definition guard_checks (init : Z) (raws : list Z) (gouts : list (option Z)) : verdict :=
+  vjoin (check_that (if forallb (fun r => negb (r =? 0)) raws
+                     then increasing_from (if init =? 0 then None else Some init) gouts else true)
                     (VPropFail 7))
-        (check_that (list_eqb opt_eqb (guard_run 0 raws) gouts) (VMismatch 3)).
+        (check_that (list_eqb opt_eqb (guard_run_e init raws) gouts) (VMismatch 3)).
+
+Definition guard_script (s g : sx) : verdict :=
+  match s, g with
+  | SList (SInt a :: SInt init :: raws), SList gouts =>
+      match map_opt sx_int raws, map_opt gout_of gouts with
+      | Some rw, Some go =>
+          if (0 <=? a) && (a <=? 3) && Nat.eqb (length rw) (length go) then guard_checks init rw go else VBad
+      | _, _ => VBad
+      end
+  | _, _ => VBad
+  end.
+
+Fixpoint guard_scripts (ss gs : list sx) : verdict :=
+  match ss, gs with
+  | [], [] => VOk
+  | s :: sr, g :: gr => vjoin (guard_script s g) (guard_scripts sr gr)
+  | _, _ => VBad
+  end.
 
 (* a concurrent (9 ...) or gated (7 ...: the harness's store decides when each store call
    returns) scenario: input = the scenario's parameters, observed =
@@ -260,13 +294,13 @@ Definition check (c : sx) : verdict :=
   | SList [SList (SList evs :: SList raws :: _); SList [SList outs; SList gouts]] =>
       (* an optional third input component marks a history driven through the package-level
          API (uuid.Init / uuid.NextID); it is judged like any other *)
-      match map_opt event_of evs, map_opt obs_of outs, map_opt sx_int raws, map_opt gout_of gouts with
-      | Some h, Some obs, Some rw, Some go =>
+      match map_opt event_of evs, map_opt obs_of outs with
+      | Some h, Some obs =>
           if Nat.eqb (length h) (length obs) then
             vjoin (check_that (forallb single_store_call outs) (VPropFail 5))
-                  (vjoin (prop h obs) (vjoin (guard_checks rw go) (corr h obs)))
+                  (vjoin (prop h obs) (vjoin (guard_scripts raws gouts) (corr h obs)))
           else VBad
-      | _, _, _, _ => VBad
+      | _, _ => VBad
       end
   | _ => VBad
   end.
